@@ -42,6 +42,10 @@ func globalIdent(old ast.GlobalIdent) ir.GlobalIdent {
 	// everything else (including negative integer) -> Name
 	if id, err := strconv.ParseInt(ident, 10, 64); err == nil && isDecimal(ident) {
 		return ir.GlobalIdent{GlobalID: id}
+	} else if isDecimal(ident) {
+		// An unquoted number is an ID however large; it is never the name
+		// spelled with the same digits (that is @"42").
+		panic(fmt.Errorf("invalid global ID %q; %v", ident, err))
 	}
 	// Unquote after trying to parse as ID, since @"42" is recognized as named
 	// and not unnamed.
@@ -80,6 +84,10 @@ func localIdentFromText(ident string) ir.LocalIdent {
 	// everything else (including negative integer) -> Name
 	if id, err := strconv.ParseInt(ident, 10, 64); err == nil && isDecimal(ident) {
 		return ir.LocalIdent{LocalID: id}
+	} else if isDecimal(ident) {
+		// An unquoted number is an ID however large; it is never the name
+		// spelled with the same digits (that is %"42").
+		panic(fmt.Errorf("invalid local ID %q; %v", ident, err))
 	}
 	// Unquote after trying to parse as ID, since %"42" is recognized as named
 	// and not unnamed.
@@ -102,6 +110,10 @@ func labelIdent(old ast.LabelIdent) ir.LocalIdent {
 	// everything else (including negative integer) -> Name
 	if id, err := strconv.ParseInt(ident, 10, 64); err == nil && isDecimal(ident) {
 		return ir.LocalIdent{LocalID: id}
+	} else if isDecimal(ident) {
+		// An unquoted number is an ID however large; it is never the name
+		// spelled with the same digits (that is %"42").
+		panic(fmt.Errorf("invalid local ID %q; %v", ident, err))
 	}
 	// Unquote after trying to parse as ID, since %"42" is recognized as named
 	// and not unnamed.
